@@ -1,12 +1,20 @@
-(* Correspondence for the reference semantics Spec/PyMini.v: a case is a generated syntax
-   tree (Gen/Pure.v), argument values, and what CPython returned for the real function on
-   those arguments.  model_ok: the PyMini interpreter computes the same outcome.  This
-   validates the trusted interpreter itself (the theorems of Proofs/PureTie.v are about
-   it), on every run.  spec_ok is trivially true here: the properties are judged elsewhere. *)
-From Curtsies Require Import Model.Base Spec.PyMini Gen.Pure.
+(* Correspondence for the reference semantics Spec/PyMini.v: a case is a context
+   (Spec/PyEnv.v; the empty one for functions that use nothing of their module), a generated
+   syntax tree (Gen/Pure.v), argument values, and what CPython returned for the real function
+   on those arguments.  model_ok: the PyMini interpreter computes the same outcome.  This
+   validates the trusted interpreter itself and the oracles of the context (the theorems of
+   Proofs/PureTie.v, Proofs/PureTieKeys.v are about them), on every run.
+   spec_ok is trivially true here: the properties are judged elsewhere. *)
+From Coq Require Import String.
+From Curtsies Require Import Model.Base Spec.PyMini Gen.Pure Spec.PyEnv.
 
 Module PureCorr.
-Record case := mkCase { c_fun : fundef; c_args : list val; c_expected : res val }.
-Definition model_ok (c : case) : bool := res_val_eqb (call (c_fun c) (c_args c)) (c_expected c).
+Record case := mkCase { c_ctx : ctx; c_fun : fundef; c_args : list val; c_expected : res val }.
+Definition model_ok (c : case) : bool := res_val_eqb (call_in (c_ctx c) (c_fun c) (c_args c)) (c_expected c).
 Definition spec_ok (c : case) : bool := true.
+
+(* compact notation for the arguments of get_key: a list of one-byte bytes objects, a
+   member of Keynames *)
+Definition bl (l : list N) : val := VList (map (fun b => VBytes [b]) l).
+Definition kn (m : string) : val := VEnum "Keynames" m.
 End PureCorr.
